@@ -650,6 +650,8 @@ class Interp(Engine):
         function active for the (d+1)-th time raises RecursionError iff d > budget -- at the call, i.e. after exactly the
         effects of the calls before it, which is how CPython raises it.  Calls that do not re-enter anything are bounded by the
         static call depth and never raise it."""
+        if getattr(self, "pure_mode", 0):
+            raise Unsupported(f"recursive call of {func.key.split(':')[-1]} inside a comprehension over a sequence of symbolic length: the recursive function needs a modular contract with a measure")
         b = self.ghost.get("recursion-budget")
         if b is None:
             b = self.ghost["recursion-budget"] = fresh("int", "recursion_budget")
